@@ -102,6 +102,8 @@ def models(tier, seed):
           dict(module="MC_Refresher", cfg="MC_Refresher_cover_late.cfg", label="cover: grant after the worst delay", workers=1, timeout=1200, expect_violation=True)]
     # composition: D_MultiplexerR (lock-step bound) + D_Refresher (lock-step bound) + abstract bank machines
     ms += [dict(module="MC_BankMachine", cfg="MC_BankMachine_quick.cfg", label="D_BankMachine refines the abstract bank machine of the composition (action property)", workers=4, timeout=2400),
+           dict(module="MC_BankMachineLive", cfg="MC_BankMachineLive.cfg", label="bank machine: a refresh request is eventually granted and a presented command eventually accepted, given cmd.ready infinitely often (liveness; discharges the bounded-wait assumption of A_BankMachine)", workers=3, timeout=2400),
+           dict(module="MC_BankMachineLive", cfg="MC_BankMachineLive_neg.cfg", label="negative control: cmd.ready not fair", workers=2, timeout=2400, expect_violation=True),
            dict(module="MC_MuxRef", cfg="MC_MuxRef_live.cfg", label="multiplexer+refresher+bank machines: every refresh request is served, every bank-machine request accepted (liveness)", workers=3, timeout=2400),
            dict(module="MC_MuxRef", cfg="MC_MuxRef_neg_bmref.cfg", label="negative control: bank machines serve their command before looking at refresh_req", workers=2, timeout=2400, expect_violation=True),
            dict(module="MC_MuxRef", cfg="MC_MuxRef_neg_wtr.cfg", label="negative control: WTR left only with a read pending", workers=2, timeout=2400, expect_violation=True)]
